@@ -1,5 +1,6 @@
 import MindsVerif.Lemmas.Iso
 import MindsVerif.Lemmas.Reuse
+import MindsVerif.Lemmas.IsoW
 /-!
 # C20 — calls are isolated  (logical structure)
 
@@ -357,5 +358,74 @@ example : (runMemo demoQuote demoRunM 4 (fun _ => 0, fun k => if k = 4 then some
   decide
 
 end Reuse
+
+/-! ## Round 6 — error texts across hash seeds; shared state written for the duration of a call
+
+**C20_11** lists, in a planner error message, the content of `QueryPlanner.databases` — a list that is partly
+`list(<set of str>)`, so its ORDER differs between processes with different `PYTHONHASHSEED`.  As long as such a
+collection is only asked for membership the order cannot show (`C20_order_blind`); printing it makes it show
+(`C20_witness_order_observed`).  Tie: `hash_order_stream` of `tools/props/c20.py` finds the attributes of a new planner
+whose order differs between the hash-seed subprocesses and permutes them in-process before planning (all results, error
+texts included, must stay the same); the hash-seed subprocesses themselves now plan — mostly failing — statements over
+generated catalogs with several projects / integrations / predictor namespaces and no default namespace.
+
+**C20_12** switches a module-level variable for the duration of a call and restores it.  `runSchedW` (`Model/IsoW.lean`)
+threads the shared store through the schedule, one step = the stretch of a call between two entries into library
+functions.  If every step leaves the store as it found it, the system IS the read-only system of `C20_noninterference`
+(`C20_quiet_steps_noninterference`); a call that is quiet only as a WHOLE is invisible to sequential callers but not
+to a call scheduled in between, and two of them can leave the store changed for good (`C20_witness_transient_*`).
+Tie: `tools/harness/interleave.py` compares, at every entry into a library function during a call, all data attributes
+of the `mindsdb_sql` modules and their classes with their values at the start of the call (`Gen.Footprint.moduleWrites`,
+decided empty-up-to-the-lazy-global by `C20B_module_quiet`) and runs other calls AT those boundaries — each a legal
+two-thread schedule, executed deterministically. -/
+
+section Round6
+
+/-- a collection that is only asked for membership cannot show its order -/
+theorem C20_order_blind {α β : Type} [BEq α] [LawfulBEq α] (g : (α → Bool) → β) (l l' : List α)
+    (h : l.Perm l') : g (fun x => l.contains x) = g (fun x => l'.contains x) := by
+  congr 1
+  funext x
+  simp only [List.contains_eq_mem]
+  exact decide_eq_decide.mpr h.mem_iff
+
+/-- … joining it into a message does (seed C20_11: `", ".join(self.databases)`) -/
+theorem C20_witness_order_observed :
+    ", ".intercalate ["hr_project", "mindsdb"] ≠ ", ".intercalate ["mindsdb", "hr_project"] := by decide
+
+/-- **quiet steps ⇒ the read-only system**: if every step leaves the shared store as it found it, running any schedule
+in the system whose steps may write the store is running it in the system of `C20_noninterference` -/
+theorem C20_quiet_steps_noninterference {Sh σ ρ : Type} (f : Sh → σ → Cell σ ρ × Sh)
+    (hq : ∀ sh s, (f sh s).2 = sh) (sh : Sh) (sched : List Nat) (st : List (Cell σ ρ)) (i : Nat) :
+    (runSchedW f sched (sh, st)).1 = sh ∧
+    (runSchedW f sched (sh, st)).2[i]? =
+      (st[i]?).map (iter (stepCell (fun sh s => (f sh s).1) sh) (sched.count i)) := by
+  rw [runSchedW_quiet f hq sh sched st]
+  exact ⟨rfl, C20_noninterference (fun sh s => (f sh s).1) sh i sched st⟩
+
+/-- call 0 switches the store to 1 while it prints and restores it; call 1 is a plain print.  One after the other:
+call 1 sees the original store, the store ends as it started — what every sequential test sees -/
+theorem C20_witness_transient_sequential_invisible :
+    runSchedW quoteStep [0, 0, 0, 1, 1, 1] (0, [.inl (0, some 1, 0, 0), .inl (0, none, 0, 0)])
+      = (0, [.inr 1, .inr 0]) ∧
+    runSchedW quoteStep [1, 1, 1, 0, 0, 0] (0, [.inl (0, some 1, 0, 0), .inl (0, none, 0, 0)])
+      = (0, [.inr 1, .inr 0]) := ⟨by decide, by decide⟩
+
+/-- call 1 scheduled between the switch and the restore of call 0 prints with the switched value (seed C20_12) -/
+theorem C20_witness_transient_interleaved :
+    runSchedW quoteStep [0, 1, 1, 1, 0, 0] (0, [.inl (0, some 1, 0, 0), .inl (0, none, 0, 0)])
+      = (0, [.inr 1, .inr 1]) := by decide
+
+/-- two switching calls that overlap restore in the wrong order: the second prints with the ORIGINAL value and the
+store stays switched for good -/
+theorem C20_witness_transient_left_behind :
+    runSchedW quoteStep [0, 1, 0, 0, 1, 1] (0, [.inl (0, some 1, 0, 0), .inl (0, some 1, 0, 0)])
+      = (1, [.inr 1, .inr 0]) := by decide
+
+/-- `quoteStep` is not step-quiet (so `C20_quiet_steps_noninterference` does not apply), a plain print is -/
+example : (quoteStep 0 (0, some 1, 0, 0)).2 ≠ 0 := by decide
+example : ∀ sh : Fin 3, (quoteStep sh.val (0, none, 0, 0)).2 = sh.val := by decide
+
+end Round6
 
 end MindsVerif.Props.C20
